@@ -35,7 +35,7 @@ def required_counters(tier):
     return {'judged:centre': 200, 'judged:boundary-probe': 1000, 'judged:length-vs-scale': 300, 'judged:class': 200,
             'lane:CircleSkyRegion': 10, 'lane:EllipseSkyRegion': 10, 'lane:RectangleSkyRegion': 10, 'lane:CircleAnnulusSkyRegion': 10,
             'lane:EllipseAnnulusSkyRegion': 10, 'lane:RectangleAnnulusSkyRegion': 10, 'region-in-other-frame': 30,
-            'centre-exactly-on-equator': 20}
+            'centre-exactly-on-equator': 20, 'annulus-hole-with-equal-axes': 20}
 
 
 CLASSES = ['CircleSkyRegion', 'EllipseSkyRegion', 'RectangleSkyRegion', 'CircleAnnulusSkyRegion', 'EllipseAnnulusSkyRegion',
@@ -102,8 +102,17 @@ def run_case(case, obs):
         reg = cls(centre, width, height, angle)
         shells = [('', width / 2, height / 2)]
     else:
-        reg = cls(centre, f * width, width, f * height, height, angle)
-        shells = [('inner', f * width / 2, f * height / 2), ('outer', width / 2, height / 2)]
+        iw, ih = f * width, f * height
+        hole = case['rs'] % 5
+        if hole == 0:
+            # a hole with equal axes (round / square) inside an elongated outline - and the other way round
+            iw = ih = f * min(width, height)
+            obs.count('annulus-hole-with-equal-axes')
+        elif hole == 1:
+            width = height = max(width, height)
+            iw, ih = f * width, 0.5 * f * height
+        reg = cls(centre, iw, width, ih, height, angle)
+        shells = [('inner', iw / 2, ih / 2), ('outer', width / 2, height / 2)]
     pix = reg.to_pixel(w)
     obs.check(type(pix).__name__ == name.replace('Sky', 'Pixel'), 'to_pixel-wrong-class', f'{name}.to_pixel gave {type(pix).__name__}', 'class')
     # centre
